@@ -5,6 +5,7 @@ import (
 	"fmt"
 	"math/rand/v2"
 	"strings"
+	"sync/atomic"
 	"testing/synctest"
 	"time"
 
@@ -436,7 +437,14 @@ func tbSendReq(c *TBCase, b *natsim.Broker, h *Hist, out *Outcome) {
 	done := make(chan error, 1)
 	go func() { done <- svc.Serve(nc) }()
 	settle(10 * time.Millisecond)
-	peer, err := tbConnect(b, "peer")
+	// nats.go reports a message it had to drop because the subscription's
+	// channel was full through the asynchronous error handler
+	var drops atomic.Int32
+	peer, err := tbConnect(b, "peer", nats.ErrorHandler(func(_ *nats.Conn, _ *nats.Subscription, err error) {
+		if err == nats.ErrSlowConsumer {
+			drops.Add(1)
+		}
+	}))
 	if err != nil {
 		h.Violate("C19", "tierb-connect", "", err.Error())
 		return
@@ -445,6 +453,7 @@ func tbSendReq(c *TBCase, b *natsim.Broker, h *Hist, out *Outcome) {
 	for i := range c.Calls {
 		call := &c.Calls[i]
 		cur = call
+		drops0 := drops.Load()
 		var got resprot.Response
 		var took time.Duration
 		fin := make(chan struct{})
@@ -501,7 +510,14 @@ func tbSendReq(c *TBCase, b *natsim.Broker, h *Hist, out *Outcome) {
 		if got.Error != nil {
 			gotCode = got.Error.Code
 		}
-		if gotCode != want || took != at {
+		if (gotCode != want || took != at) && drops.Load() != drops0 {
+			// which goroutine of nats.go runs first is not decided by the
+			// simulator in this tier: when the reader delivered two inbox
+			// messages before the requester took the first, the second was
+			// dropped (the same loss tier A reaches by schedule)
+			out.Faults["tierb-inbox-drop"]++
+			h.Violate("C19", "inbox-message-lost", "channel-full", fmt.Sprintf("SendRequest(%+v) over real connections returned code %q after %v, the timed model expects %q after %v; nats.go reported a dropped message on the requester's connection", *call, gotCode, took, want, at))
+		} else if gotCode != want || took != at {
 			h.Violate("C19", "wrong-response", "tierb", fmt.Sprintf("SendRequest(%+v) over real connections returned code %q after %v, the timed model expects %q after %v", *call, gotCode, took, want, at))
 		}
 		if call.Reply == "none" || want == "system.timeout" {
